@@ -765,6 +765,8 @@ pub fn run(_args: &[String]) -> i32 {
 			}
 		}
 		// look-ups by id and by slate id (with and without query args, which must be ignored)
+		for (active, label) in [(0usize, "default"), (1, "acct1"), (2, "acct2")].iter() {
+		a.set_account(label).unwrap();
 		for s in specs.iter() {
 			for with_args in [false, true].iter() {
 				let qa = if *with_args {
@@ -782,16 +784,16 @@ pub fn run(_args: &[String]) -> i32 {
 					.collect();
 				let expect: Vec<(usize, u32)> = specs
 					.iter()
-					.filter(|x| x.acct == 0 && x.id == s.id)
-					.map(|x| (0, x.id))
+					.filter(|x| x.acct == *active && x.id == s.id)
+					.map(|x| (*active, x.id))
 					.collect();
 				let mut g = got.clone();
 				g.sort();
 				if g != expect {
 					rep.add_finding(Finding {
 						key: "C19/lookup/id".to_owned(),
-						what: format!("look-up by log id {} returned {:?}, expected {:?}", s.id, got, expect),
-						replay: json!({"log": li, "tx_id": s.id}),
+						what: format!("look-up by log id {} with account {} active returned {:?} (account index, id), expected {:?}", s.id, label, got, expect),
+						replay: json!({"log": li, "tx_id": s.id, "active": label}),
 					});
 				}
 				if let Some(sl) = s.slate {
@@ -806,20 +808,22 @@ pub fn run(_args: &[String]) -> i32 {
 					got.sort();
 					let mut expect: Vec<(usize, u32)> = specs
 						.iter()
-						.filter(|x| x.acct == 0 && x.slate == Some(sl))
-						.map(|x| (0, x.id))
+						.filter(|x| x.acct == *active && x.slate == Some(sl))
+						.map(|x| (*active, x.id))
 						.collect();
 					expect.sort();
 					if got != expect {
 						rep.add_finding(Finding {
 							key: "C19/lookup/slate".to_owned(),
-							what: format!("look-up by slate id #{} returned {:?}, expected {:?}", sl, got, expect),
-							replay: json!({"log": li, "slate": sl}),
+							what: format!("look-up by slate id #{} with account {} active returned {:?} (account index, id), expected {:?}", sl, label, got, expect),
+							replay: json!({"log": li, "slate": sl, "active": label}),
 						});
 					}
 				}
 			}
 		}
+		}
+		a.set_account("default").unwrap();
 		w.close();
 	}
 	rep.cov("states", json!(evaluations));
